@@ -161,12 +161,13 @@ def _plans(tier: str, seed: int, v: core.Verdict):
 _BASES: dict = {}
 _TMP = None
 _TIER = "quick"
+_RUN = os.getpid()  # scratch directories of the forked workers carry the parent's pid
 
 
 def _tmpdir():
     global _TMP
     if _TMP is None or not os.path.isdir(_TMP):
-        _TMP = str(core.scratch("c06tmp"))
+        _TMP = str(core.scratch(f"c06tmp{_RUN}"))
     return _TMP
 
 
@@ -195,6 +196,14 @@ def _observe_result(S: M.Session, m, m2, r, r2, components=True):
     S.observe(r, r, "reflexive")
     S.observe(r, m, "result~base")
     S.observe(m, r, "base~result")
+    if components:
+        for name in ("datainfo", "parameters", "random_variables", "execution_steps"):
+            x, y = getattr(r, name), getattr(m, name)
+            if x is not y:
+                S.load(x, name)
+                S.load(y, name)
+                S.observe(x, y, name + " result~base")
+                S.observe(y, x, name + " base~result")
     if isinstance(r2, Model) and r2 is not r:
         S.observe(r, r2, "result~rebuilt")
         S.observe(r2, r, "rebuilt~result")
@@ -567,7 +576,7 @@ def main(tier: str, seed: int) -> int:
     work = tasks + ptasks + ztasks
     random.Random(seed).shuffle(work)
     results = core.pmap(_dispatch, work, procs=14, chunk=4)
-    for dname in core.WORK.glob("c06tmp-*"):
+    for dname in core.WORK.glob(f"c06tmp{_RUN}-*"):
         shutil.rmtree(dname, ignore_errors=True)
     t_run = time.time() - t0
     fatal = [r for r in results if r.get("fatal")]
@@ -643,7 +652,7 @@ def replay(path: str) -> int:
                 r = x
         if r is None:
             return 2
-    for dname in core.WORK.glob("c06tmp-*"):
+    for dname in core.WORK.glob(f"c06tmp{_RUN}-*"):
         shutil.rmtree(dname, ignore_errors=True)
     if "trace" not in r:
         print("session could not be rebuilt:", r)
